@@ -88,6 +88,7 @@ func RunTimedWorld(r sim.Src, mons []*sim.Mon, keepLog bool, sh TimedShape) *sim
 	cfg.Validators = func(uint32) []int { return base }
 	o := sim.TimedOpts{MaxLat: lat, ResetLag: lat * time.Duration(r.Intn("resetlag", 3)), MaxEvents: 60000}
 	maxView := -1
+	var phaseSkew map[int][4]int
 	switch sh.Kind {
 	case "c08":
 		slowRound := r.Intn("slowround", 3) == 0
@@ -108,6 +109,22 @@ func RunTimedWorld(r sim.Src, mons []*sim.Mon, keepLog bool, sh TimedShape) *sim
 				}
 			}
 			o.SlowLag = tpb * 11 / 10
+		}
+		if r.Intn("phaseskew", 3) == 0 {
+			// whole phases of a round reach the chosen nodes in a drawn order (e.g. every commit
+			// before the last pre-commit, the responses last), the other links being fast
+			phaseSkew = map[int][4]int{}
+			mask := 1 + r.Intn("skewmask", (1<<uint(min(ids, 8)))-1)
+			for i := 0; i < ids; i++ {
+				if mask&(1<<uint(i%8)) != 0 {
+					perm := [4]int{0, 1, 2, 3}
+					for k := 3; k > 0; k-- {
+						j := r.Intn("skewperm", k+1)
+						perm[k], perm[j] = perm[j], perm[k]
+					}
+					phaseSkew[i] = perm
+				}
+			}
 		}
 		o.Heights = 3 + r.Intn("heights", 4)
 		o.DupPct = []int{0, 10, 40}[r.Intn("dup", 3)]
@@ -245,6 +262,10 @@ func RunTimedWorld(r sim.Src, mons []*sim.Mon, keepLog bool, sh TimedShape) *sim
 		mons = append(mons, sim.MonProgress("C13", maxView))
 	}
 	w := sim.NewWorld(cfg, r, nil, watch, mons, keepLog)
+	if phaseSkew != nil {
+		w.PhaseRank = phaseSkew
+		w.Stat("phase_skew")
+	}
 	w.Stat(fmt.Sprintf("N=%d", n))
 	if amev >= 0 {
 		w.Stat("amev")
